@@ -23,6 +23,7 @@ EXPLANATION = (
     ' Round 4 (added): a decoder tests the presence of an optional key by membership, never by the truth value of the decoded value (booleans excepted by table); a field annotated tuple[...] of a pure dataclass receives a tuple in every decoder call; registers are written from the coordinates they hold (_coords/_coords_arr), not from the rounded/sorted copies.'
     " Round 5 (added): complex values are converted back by the Results decoder; atom_order is stringified; State's in-place check compares with the rebuilt state's own norm; WeightMap writes every coordinate (KNOWN: 2D only)."
     ' Round 6 (added after the fifth independent round of breaking changes): optional channel / DMM fields are popped only under a comparison with get_dataclass_defaults (siblings of the device rule); a complex value is written as its real part only under `imag == 0` exactly (no tolerance); the STORED net also reads `obj.attr = param` in alternative constructors (classmethods).'
+    ' Round 7 (added after the sixth, smaller round of breaking changes): BaseDevice._to_abstract_repr writes each channel under the id it is registered with (key of self.channels / self.dmm_channels), never default_id(); _deserialize_device_object reads the `init` flag from the fields of the class it builds.'
 )
 ASSUMPTIONS = ["the serialisers are reflective (dataclasses.fields); the rule checks the declared fields, the optional tables and the schemas that this reflection relies on"]
 
